@@ -15,12 +15,25 @@
     the running nodes (by NodeID and address) and all compute the same leader; [quiet lg]: the log holds no
     ClusterMembersChanged / ClusterViewChanged / ClusterLeaderChanged event.
 
-    The unconditional property [C18_unconditional] is FALSE of the code as it is; five distinct defects are
+    The unconditional property [C18_unconditional] is FALSE of the code as it is; the defects are
     established by kernel-checked executions (replayed on the real NodeActors by the harness on every run),
-    each with the strongest true statement next to it. *)
+    each with the strongest true statement next to it.
+
+    Section 5 DECIDES the convergence clause by history class.  On the CLEAN histories (Cluster/GossipClean.v:
+    failure detection off, every NodeID used once, no crash / leave / force-down, joins accepted by joined nodes
+    only - any join order, seed lists, loss, delivery order, retries, for any number of nodes up to the 65535-entry
+    cap of the version vector) it is PROVED: the order of the version vectors is the order of the memberships,
+    so the suppression of shouldSendGossipTo is sound; one fair round after everybody has joined makes all views
+    equal, provided the seed lists connect the nodes; exactly one node is leader; and from then on nothing is
+    announced and nothing changes, for ever.  Every class outside is matched by a refutation:
+      failure detection on -> (a) (c) (f);  crash + restart -> (c2) (e) (e2);  leave -> (d);  removal -> (b);
+      a crash that nothing detects -> (g);  seed lists that do not connect -> (h).
+    Undecided (neither proved nor refuted): histories in which a node whose own join is still pending accepts a
+    JoinRequest ([ask_ok] in Cluster/GossipClean.v). *)
 From Coq Require Import List NArith ZArith Lia Bool.
 From stdpp Require Import gmap.
 From Vivid Require Import Codec.Prim Cluster.VV Cluster.VVProofs Cluster.View Cluster.ViewProofs Cluster.Gossip Cluster.GossipProofs.
+From Vivid Require Import Cluster.GossipClean Cluster.GossipCleanStep Cluster.GossipCleanRun Cluster.GossipCleanConv Cluster.GossipCleanEx.
 Local Open Scope N_scope.
 
 (** ** 1. Same Up members => same leader; exactly one IAmLeader *)
@@ -285,6 +298,128 @@ Theorem C18_f_learned_member_keeps_foreign_lastseen n src v now id s :
   vw_members (nd_view (fst (fst (handle_gossip n src v now None)))) !! id = Some s.
 Proof. exact (learned_member_keeps_foreign_lastseen n src v now id s). Qed.
 
+(** ** 5. The clean histories: convergence proved, for any number of nodes *)
+
+(** [clean_history h]: every step of [h] is executed (from the empty world) and is clean where it is executed:
+    process starts with FailureDetectionTimeout <= 0, a NodeID of 1..256 bytes that no running node has; join retries,
+    gossip ticks, deliveries (any order, any MemberByAddress pick), losses of packets and of join Asks; no crash, leave,
+    force-down; a join Ask that goes through reaches a node that has itself joined (or is refused for lack of quorum).
+    [view_in w v]: v is the view of a running node or of a GossipMessage in flight.  [ple p q]: every member of p is a
+    member of q at the same or a newer incarnation.
+
+    In every world a clean history reaches, the ORDER OF THE VERSION VECTORS IS THE ORDER OF THE MEMBERSHIPS: a view
+    whose vector is dominated lists nothing the dominating view does not list at the same or a newer incarnation.
+    (This is exactly what fails in (c2): there two views have Equal vectors and different incarnations.) *)
+Theorem C18_clean_vector_order_is_membership_order h w l :
+  clean_history h = true -> run empty_world h = Some (w, l) ->
+  N.of_nat (size (w_nodes w)) <= max_entries -> 3 * N.of_nat (length h) + 3 < max_counter ->
+  forall u v, view_in w u -> view_in w v -> vle (vw_vv u) (vw_vv v) -> ple (proj u) (proj v).
+Proof. exact (clean_vector_order h w l). Qed.
+
+(** ... hence the gossip suppression is sound there: whenever shouldSendGossipTo says "do not send to t" and t is
+    running, t's vector dominates the sender's and t already lists everything the sender lists *)
+Theorem C18_clean_suppression_sound h w l a n t m :
+  clean_history h = true -> run empty_world h = Some (w, l) ->
+  N.of_nat (size (w_nodes w)) <= max_entries -> 3 * N.of_nat (length h) + 3 < max_counter ->
+  w_nodes w !! a = Some n -> w_nodes w !! t = Some m ->
+  should_send n (vw_vv (nd_view n)) t = false ->
+  vle (vw_vv (nd_view n)) (vw_vv (nd_view m)) /\ ple (proj (nd_view n)) (proj (nd_view m)).
+Proof. exact (clean_suppression_sound h w l a n t m). Qed.
+
+(** GossipTargetSelector.SelectTargets (no datacenter labels, at most MaxDiscoveryTargetsPerTick candidates): the targets
+    of a gossip round / of an immediate broadcast are exactly the non-empty addresses other than the own one that are a
+    CONFIGURED SEED - whether or not that seed is a member of the view - or the address of a member of the view.  The
+    seeds outside the view are the only rendezvous of groups that do not know each other: this is what [seed_connected]
+    relies on. *)
+Theorem C18_gossip_targets_exactly n t :
+  t ∈ select_targets n <->
+  t <> [] /\ t <> nd_addr n /\
+  (t ∈ c_seeds (nd_cfg n) \/ exists k s, vw_members (nd_view n) !! k = Some s /\ ns_addr s = t).
+Proof. exact (select_targets_spec n t). Qed.
+
+(** CONVERGENCE.  [all_joined w0]: every running node has bootstrapped or completed its join.  [seed_connected w1]:
+    the undirected graph "b is a running seed of the running node a" connects all running nodes (self-seeded islands are
+    fine as long as some node lists seeds of both - it keeps gossiping to a configured seed that is no member of its
+    view, which is how the islands meet).  After any clean history that ends with everybody joined, ONE fair round
+    (every gossip timer fires, everything in flight is delivered, in any order) reaches a world in which
+      - every running node lists exactly the running nodes and all compute the same leader ([converged]),
+      - exactly one running node has IAmLeader,
+      - and in all fair rounds that follow, of any number and length: the world stays converged, NO
+        ClusterMembersChanged / ClusterViewChanged / ClusterLeaderChanged event is published, and no node's membership
+        or version vector changes.
+    Sizes: at most 65535 nodes (the entry cap of the version vector) and fewer than 2^61 steps (no counter overflow). *)
+Theorem C18_clean_history_converges h w0 l0 t r w1 l1 :
+  clean_history h = true -> run empty_world h = Some (w0, l0) ->
+  N.of_nat (size (w_nodes w0)) <= max_entries -> 3 * N.of_nat (length h) + 3 < max_counter ->
+  all_joined w0 -> fair_round w0 t r = Some (w1, l1) -> seed_connected w1 ->
+  converged w1 /\
+  (nodes_of w1 <> [] ->
+   exists n, n ∈ nodes_of w1 /\ iam_leader n = true /\ forall m, m ∈ nodes_of w1 -> iam_leader m = true -> m = n) /\
+  forall t' d rounds w2 logs, fair_rounds w1 t' d rounds = Some (w2, logs) ->
+    converged w2 /\ Forall (fun lg => quiet lg = true) logs /\ same_memberships w1 w2.
+Proof. exact (clean_convergence h w0 l0 t r w1 l1). Qed.
+
+(** the same in the shape of [C18_unconditional]: on clean histories that end with everybody joined and connected seed
+    lists the unconditional property holds with L = 2 rounds of any length d *)
+Theorem C18_unconditional_on_clean_histories d faults t rounds w1 l1 w2 logs :
+  clean_history faults = true -> run empty_world faults = Some (w1, l1) ->
+  N.of_nat (size (w_nodes w1)) <= max_entries -> 3 * N.of_nat (length faults) + 3 < max_counter ->
+  all_joined w1 -> seed_connected w1 ->
+  fair_rounds w1 t d rounds = Some (w2, logs) -> (2 <= length rounds)%nat ->
+  converged w2 /\ (forall lg, last logs = Some lg -> quiet lg = true).
+Proof. exact (clean_unconditional d faults t rounds w1 l1 w2 logs). Qed.
+
+(** (g) A CRASH THAT NOTHING DETECTS.  Failure detection off (FailureDetectionTimeout <= 0, "rely on an explicit
+    leave"): s and j converge, j crashes; 30 quiet fair rounds later s still lists j.  The clause "a node that crashed
+    is eventually absent from every view" needs a failure detector - and with one, (a) and (b) apply. *)
+Theorem C18_g_crash_undetected_without_failure_detection_refuted :
+  exists w1 l1 w2 logs,
+    run empty_world (faults_of wj_play 30) = Some (w1, l1) /\
+    fair_rounds w1 1250 50 (rounds_of wj_play 30) = Some (w2, logs) /\
+    ((length (rounds_of wj_play 30) =? 30)%nat && negb (is_running w2 ad2) && (length (nodes_of w2) =? 1)%nat &&
+     match w_nodes w2 !! ad1 with Some s => lists_id s [106] | None => false end &&
+     negb (converged_b w2) && forallb quiet logs) = true.
+Proof. exact wj_check. Qed.
+
+(** (h) SEED LISTS THAT DO NOT CONNECT (a configuration, not a defect).  Two self-seeded nodes, a clean history,
+    everybody has joined: no running node lists another one among its seeds, and after 30 quiet fair rounds each
+    still lists only itself.  The hypothesis [seed_connected] of the convergence theorem cannot be dropped. *)
+Theorem C18_h_unconnected_seed_lists_stay_apart :
+  exists w1 l1 w2 logs,
+    run empty_world (faults_of wk_play 30) = Some (w1, l1) /\
+    fair_rounds w1 1050 50 (rounds_of wk_play 30) = Some (w2, logs) /\
+    clean_history (faults_of wk_play 30) = true /\ all_joined w1 /\ ~ seed_connected w2 /\
+    ~ converged w2 /\ Forall (fun lg => quiet lg = true) logs /\
+    map (fun n => map ns_id (states (nd_view n))) (nodes_of w2) = [[[65]]; [[66]]].
+Proof. exact wk_example. Qed.
+
+(** ** 6. Thresholds of the failure detector and the default quorum rule, as they are *)
+
+(** FailureDetector.RunDetection (one datacenter): exactly the members whose address is not the own one and whose
+    LastSeen is older than FailureDetectionTimeout + max(SuspectConfirmDuration, 0) are removed ... *)
+Theorem C18_failure_detector_removes_exactly n now id :
+  id ∈ snd (fd_detect n now) <->
+  exists s, vw_members (nd_view n) !! id = Some s /\ ns_addr s <> nd_addr n /\ (0 < c_fd (nd_cfg n))%Z /\
+            (ns_seen s < now - (c_fd (nd_cfg n) + Z.max (c_confirm (nd_cfg n)) 0))%Z.
+Proof. exact (fd_removes_iff n now id). Qed.
+
+(** ... and exactly the Up members last seen in the window [now - timeout - confirm, now - timeout) are marked Suspect,
+    when SuspectConfirmDuration > 0.  In particular a member seen within the timeout is never touched. *)
+Theorem C18_failure_detector_suspects_exactly n now id :
+  id ∈ fst (fd_detect n now) <->
+  exists s, vw_members (nd_view n) !! id = Some s /\ ns_addr s <> nd_addr n /\ (0 < c_fd (nd_cfg n))%Z /\
+            ns_status s = st_up /\ (0 < c_confirm (nd_cfg n))%Z /\
+            (now - (c_fd (nd_cfg n) + c_confirm (nd_cfg n)) <= ns_seen s < now - c_fd (nd_cfg n))%Z.
+Proof. exact (fd_suspects_iff n now id). Qed.
+
+(** QuorumCalculator.SatisfiesQuorum, default strategy, on the counts recomputeCounts caches: QuorumSize is derived from
+    HealthyCount itself (HealthyCount/2+1), so the test HealthyCount >= QuorumSize holds exactly when at least ONE member
+    is Up - whatever the size of the membership.  (An observation about quorum.go, not a clause of C18: the rule cannot
+    tell a minority partition from a majority one; a node that has removed or suspected everybody but itself is still
+    "in quorum", accepts joins and publishes IAmLeader with InQuorum = true.) *)
+Theorem C18_default_quorum_is_at_least_one_up v : sat_quorum (recompute v) = (0 <? vw_healthy (recompute v)).
+Proof. exact (default_quorum_trivial v). Qed.
+
 (** ** Non-vacuity *)
 
 (** the hypotheses of C18_exactly_one_leader: the three nodes of [ex_world] (seeds s, a and member x after three
@@ -367,6 +502,21 @@ Proof.
   split; [apply WF_b_sound; exact H1|]. split; [apply WF_b_sound; exact H2|]. auto.
 Qed.
 
+(** the hypotheses of C18_clean_history_converges (and of the two theorems before it): the self-seeded islands
+    A = [A], B = [B] with C = [A; B] joined through A and D = [B]; every GossipMessage of the start-up phase was lost, so
+    when the faults stop the views are {A,C}, {B,D}, {A,C}, {B,D} and nothing is in flight.  The history is clean,
+    everybody has joined, one canonical fair round follows, the seed lists connect the four nodes (A - C - B - D) -
+    and after that round all four list A, B, C, D. *)
+Example C18_clean_history_converges_example :
+  exists w0 l0 r w1 l1,
+    clean_history (faults_of wi_play 1) = true /\ run empty_world (faults_of wi_play 1) = Some (w0, l0) /\
+    N.of_nat (size (w_nodes w0)) <= max_entries /\ 3 * N.of_nat (length (faults_of wi_play 1)) + 3 < max_counter /\
+    all_joined w0 /\ fair_round w0 1050 r = Some (w1, l1) /\ seed_connected w1 /\
+    map (fun n => map ns_id (states (nd_view n))) (nodes_of w0) = [[[65]; [67]]; [[66]; [68]]; [[65]; [67]]; [[66]; [68]]] /\
+    map (fun n => map ns_id (states (nd_view n))) (nodes_of w1) =
+      [[[65]; [66]; [67]; [68]]; [[65]; [66]; [67]; [68]]; [[65]; [66]; [67]; [68]]; [[65]; [66]; [67]; [68]]].
+Proof. exact wi_example. Qed.
+
 Print Assumptions C18_same_view_same_leader.
 Print Assumptions C18_exactly_one_leader.
 Print Assumptions C18_leader_is_least.
@@ -388,3 +538,13 @@ Print Assumptions C18_d_left_node_stays_refuted.
 Print Assumptions C18_e_restart_shadowed_refuted.
 Print Assumptions C18_e2_fresh_id_restart_refuted.
 Print Assumptions C18_f_learned_member_keeps_foreign_lastseen.
+Print Assumptions C18_clean_vector_order_is_membership_order.
+Print Assumptions C18_clean_suppression_sound.
+Print Assumptions C18_clean_history_converges.
+Print Assumptions C18_unconditional_on_clean_histories.
+Print Assumptions C18_g_crash_undetected_without_failure_detection_refuted.
+Print Assumptions C18_h_unconnected_seed_lists_stay_apart.
+Print Assumptions C18_failure_detector_removes_exactly.
+Print Assumptions C18_failure_detector_suspects_exactly.
+Print Assumptions C18_default_quorum_is_at_least_one_up.
+Print Assumptions C18_gossip_targets_exactly.
